@@ -702,6 +702,9 @@ def build(tier):
             'threshold sweeps of the fits (stump, hinge; dtree nodes fit stumps): cache_t::clear turns every sample position with a given value into exactly one (value, sample) entry and one contribution to the total accumulator (hinge: with that value), a missing value into one contribution to the missing residual sum and nothing else, sorts the whole vector once and leaves the left accumulator empty; in the sweep a candidate is evaluated only between two DIFFERENT consecutive sorted values v1 < v2, the left accumulator then holds exactly the sorted entries before the cut (values <= v1) and total minus left exactly the others (values >= v2), once each; a stored candidate is one consistent candidate: the score of that evaluation, this feature, a threshold with v1 < threshold <= v2 for that cut (so that `value < threshold` reproduces the partition the score was computed for; REFUTED on the current library, see the finding) which is 0.5 * (v1 + v2) bit-identically whenever that mid-point separates, coefficients computed from the accumulators of that moment (stump: left -> row 0, right -> row 1; hinge: slope of the evaluated direction -> row 0, -threshold * row 0 -> row 1, m_hinge = that direction); over the reals that threshold separates the two sides under `value < threshold` (SMT lemma)',
             'affine fit callback: every sample position is accumulated exactly once, a given value in the affine bin with its own value, a missing one in the missed bin (bin constants read from the source); the score is evaluated once, after all positions; a store is that candidate (score, feature, w() -> row 0, b() -> row 1)',
             'do_fit of stump / hinge / affine around the callback: the callback (capturing the caches) is handed to select_iterator_t::loop with the given samples once; the learner takes every field of the cache min_reduce returns (feature, tables, threshold, hinge direction) exactly when its score is not no_fit_score, and returns that score',
+            'accumulator_t over a symbolic number of outputs (ghost bin, ghost output; a reduction E.sum() is identified by its summand at the ghost output): update(vgrad, bin) adds 1 to x0(bin), subtracts the gradient from r1(bin, o) and adds its square to r2(bin, o), update(value, vgrad, bin) also value / value^2 / gradient * value to x1 / x2 / rx, and nothing outside that bin; sort() returns one (gain, bin) pair per bin with gain(bin) = -SUM_o r1(bin, o)^2 / x0(bin) (a reduction of squares), the whole vector sorted; rss_zero = SUM_o r2, rss_constant = SUM_o (r2 - r1^2 / max(1, x0)), fit_constant(o) = r1 / max(1, x0); table cache_t::score(bin) = SUM_o (r2 - r1^2 / x0); SMT: per output this summand is the RSS of predicting r1/x0 (generic output index), and score = rss_zero + gain for 1..3 outputs (bounded)',
+            'table cache_t::score_dense / score_kbest: what is stored for a better candidate is one consistent table (score of that evaluation, feature, K tables, hashes / hash2tables / coefficients of the tracked row: dense row = bin, k-best row fv = the bin sorted at position fv) whose coefficients are the optimal constants r1(bin, o) / x0(bin) of the bin the row stands for; make_score gets n = m_samples',
+            'split of stump / hinge / affine / tables: for the position i of the given list with a non-missing (active) value, cluster.assign is called exactly once with THAT sample samples(i) and the group the predictor uses for its value, nothing is assigned for a missing one; robust to the capture lists (stubs, prototypes and closure structs are generated from the lambdas as they are in the source)',
             'wlearner::make_score (index discipline only): rss is clamped below by 1e3 * epsilon and passed with (k, n) unchanged and in order to exactly the formula the criterion names (AIC / AICc / BIC uninterpreted), the plain criterion returns the clamped rss',
             'dtree do_predict: through wlearner_t::split (compatibility check, then do_split) the row i of outputs receives exactly one update, the m_tables row of the group split() reports for samples(i), and none if there is no group; depth 1: the stump_do_predict contract',
         ],
@@ -709,6 +712,7 @@ def build(tier):
             'minimum RSS over the hypothesis class (all do_fit functions, accumulators, values of the criteria): optimisation over float moment sums; accumulator_t (moment sums, cluster()) is not under contract',
             'termination of the breadth-first walks of dtree do_split / do_fit; the scores, samples and stopping rule of dtree do_fit (stump fits are opaque)',
             'the count in missing_cnt (a float sum of 1.0); the values of scores / coefficients (uninterpreted)',
+            'accumulator_t::cluster() and table cache_t::score_ksplit (k-split clustering over 2-D / 5-D tensors), cache_t::update (label -> bin), the float accumulation of rss inside score_dense / score_kbest (which gains are added is not tracked, only what is stored)',
             'numeric value of the scaled coefficients (Eigen *= is recorded, not computed); sums of merged / predicted coefficients are exact only as uninterpreted IEEE terms',
             'nano::find for multi-label values (detail::hash over the row) stays an assumed contract',
             'native replay only for the dtree groups() finding (replay/C10_replay.cpp); other counterexamples would be (value, threshold, index) tuples',
@@ -733,6 +737,7 @@ def build(tier):
             'stump_wlearner_t::split inside dtree by the contract proved in target stump_split (per position), lifted to samples: a sample gets group (value < threshold ? 0 : 1) iff it is among the samples and its value is given',
             'dtree do_predict: samples index valid dataset samples; groups of other samples are rows of m_tables (dtree_do_split.postcondition.3 at those samples); learner_t::critical_compatible throws or returns without other effects; indices_t(indices_cmap_t) copies',
             'm_tables.size() >= m_tables.size<0>() (non-empty target dims)',
+            'accumulator model: tensors tracked at one bin and one output coefficient, all other cells folded into one; Eigen coefficient-wise statements / expressions lifted by engine/eigencw (square() = coefficient times itself; E.sum() adds the coefficients of E and is determined by its summand at every position); inline accessors x0/r1/r2/.. = the member cells with the bin index in range; std::vector<pair> of sort() abstracted to the entry of the ghost bin (score_kbest: the entry at the ghost position, any other entry belongs to another bin); arange(lo, hi) = lo..hi-1; tensor = tensor copies; resize leaves the content unspecified',
             'fit sweeps: the callback runs on the cache of its thread (caches[tnum], tnum < caches.size()); one feature value per sample of the subset (select_iterator_t::loop); samples index rows of gradients (wlearner_t::fit asserts it); a cache\'s tables have 2 rows (cache_t constructor); an entry is identified by the address its sample index is read from (row views carry it); accumulator_t::update adds one contribution, clear() empties; std::sort sorts and permutes (the sweep assumes sorted, finite entries -- proved for clear() -- at the positions it reads, relative to the followed position and the neighbour); std::pair relational operators are lexicographic; min_reduce returns one of the caches',
             'dtree do_fit: stump_wlearner_t::fit either fails or stores a feature, a threshold and a 2-row tables tensor; its split() has 2 groups; append(tables, t) adds t as the last row and keeps the others; std::vector / std::deque (FIFO, below max_size()) abstracted to the ghost pair and the caches that link its members (queue invariant by assume-guarantee: every pushed cache refers to the node appended just before, asserted); registered parameter domains (max_depth, min_split in [1, 10]); default member initialisers of cache_t (m_depth 0, m_parent 0) are the zero struct, those of dtree_node_t are pinned by a static_assert',
             'std::remove_if keeps exactly the elements for which the predicate is false, in order, at positions not after their old ones; vector::erase(first, end()) truncates at first',
